@@ -126,7 +126,10 @@ Definition walker_c_ser_macros : list (string * string * list tnode) :=
        ((CAtom "offset.is_aligned_at_byte()"),
         [NAct KRAssert "'offset_bits % 8U == 0U'"])]
       [];
-     NAct KRAssert "'(offset_bits + %dULL) <= (capacity_bytes * 8U)'|format(t.bit_length_set.max)";
+     NIf [
+       ((CNot (CAtom "opt_override_capacity")),
+        [NAct KRAssert "'(offset_bits + %dULL) <= (capacity_bytes * 8U)'|format(t.bit_length_set.max)"])]
+      [];
      NIf [
        ((CAtom "t is VoidType"),
         [NAct KMacro "_serialize_void(t, offset)"]);
@@ -1240,7 +1243,10 @@ Definition walker_cpp_ser_macros : list (string * string * list tnode) :=
       [];
      NIf [
        ((CAtom "t.bit_length_set.max > 0"),
-        [NAct KRAssert "'%dULL <= out_buffer.size()'|format(t.bit_length_set.max)"])]
+        [NIf [
+           ((CNot (CAtom "opt_override_capacity")),
+            [NAct KRAssert "'%dULL <= out_buffer.size()'|format(t.bit_length_set.max)"])]
+          []])]
       [];
      NIf [
        ((CAtom "t is VoidType"),
@@ -1536,7 +1542,7 @@ Definition walker_cpp_des_macros : list (string * string * list tnode) :=
      NIf [
        ((CAtom "t is DelimitedType"),
         [NAct KMacro "_deserialize_integer(t.delimiter_header_type, <size_bytes>, offset)";
-         NAct KGuard "if (({{ <size_bytes> }} * 8U) > in_buffer.size())";
+         NAct KGuard "if ({{ <size_bytes> }} > (in_buffer.size() / 8U))";
          NAct KOpen "";
          NAct KReturn "return -nunavut::support::Error::RepresentationBadDelimiterHeader;";
          NAct KClose "";
@@ -2015,11 +2021,11 @@ Definition walker_c_decl_base : list tnode :=
        NAct KRaw "#include <stdbool.h>";
        NAct KRaw "#include <stdint.h>"])]
     [NAct KRaw "static_assert( NUNAVUT_SUPPORT_LANGUAGE_OPTIONS_KEY_SET == {{ options.keys() | sort(case_sensitive=true) | join("","") | to_static_assertion_value }},";
-     NAct KRaw """{{ (T.source_file_path.as_posix() | replace(""\\"", ""\\\\"") | replace('""', '\\""')) if nunavut.embed_auditing_info else T.source_file_path.name }} is trying to use a serialization library that was compiled with """;
+     NAct KRaw """{{ (T.source_file_path.as_posix() | replace(""\\"", ""\\\\"") | replace('""', '\\""') | replace(""?"", ""\\?"")) if nunavut.embed_auditing_info else T.source_file_path.name }} is trying to use a serialization library that was compiled with """;
      NAct KRaw """different language options. This is dangerous and therefore not allowed."" );";
      NFor "key, value in options.items()"
       [NAct KRaw "static_assert( {{ ""NUNAVUT_SUPPORT_LANGUAGE_OPTION_{}"".format(key) | ln.c.macrofy }} == {{ value | to_static_assertion_value }},";
-       NAct KRaw """{{ (T.source_file_path.as_posix() | replace(""\\"", ""\\\\"") | replace('""', '\\""')) if nunavut.embed_auditing_info else T.source_file_path.name }} is trying to use a serialization library that was compiled with """;
+       NAct KRaw """{{ (T.source_file_path.as_posix() | replace(""\\"", ""\\\\"") | replace('""', '\\""') | replace(""?"", ""\\?"")) if nunavut.embed_auditing_info else T.source_file_path.name }} is trying to use a serialization library that was compiled with """;
        NAct KRaw """different language options. This is dangerous and therefore not allowed."" );"]];
    NAct KRaw "#ifdef __cplusplus";
    NAct KRaw "extern ""C"" {";
@@ -2098,13 +2104,13 @@ Definition walker_cpp_decl_base : list tnode :=
          NIf [
            ((CAtom "loop.first"),
             [NAct KRaw "static_assert( nunavut::support::language_options_key_set == {{ options.keys() | sort(case_sensitive=true) | join("","") | ln.c.to_static_assertion_value }},";
-             NAct KRaw """{{ (T.source_file_path.as_posix() | replace(""\\"", ""\\\\"") | replace('""', '\\""')) if nunavut.embed_auditing_info else T.source_file_path.name }} """;
+             NAct KRaw """{{ (T.source_file_path.as_posix() | replace(""\\"", ""\\\\"") | replace('""', '\\""') | replace(""?"", ""\\?"")) if nunavut.embed_auditing_info else T.source_file_path.name }} """;
              NAct KRaw """is trying to use a serialization library that was compiled with """;
              NAct KRaw """different language options. This is dangerous and therefore not """;
              NAct KRaw """allowed."" );"])]
           [];
          NAct KRaw "static_assert( nunavut::support::options::{{ key | id }} == {{ value | ln.c.to_static_assertion_value }},";
-         NAct KRaw """{{ (T.source_file_path.as_posix() | replace(""\\"", ""\\\\"") | replace('""', '\\""')) if nunavut.embed_auditing_info else T.source_file_path.name }} """;
+         NAct KRaw """{{ (T.source_file_path.as_posix() | replace(""\\"", ""\\\\"") | replace('""', '\\""') | replace(""?"", ""\\?"")) if nunavut.embed_auditing_info else T.source_file_path.name }} """;
          NAct KRaw """is trying to use a serialization library that was compiled with """;
          NAct KRaw """different language options. This is dangerous and therefore not """;
          NAct KRaw """allowed."" );"]])]
@@ -2642,15 +2648,13 @@ Definition walker_py_decl_base : list tnode :=
        NAct KRaw "raise ValueError(f'{{ f.name }}: expected an array, got {type({{ src }}).__name__}')";
        NIf [
          ((CAtom "t.element_type is IntegerType"),
-          [NAct KRaw "_s_ = _np_.asarray({{ src }})";
-           NAct KRaw "if _s_.size and (_s_.dtype.kind in 'iuO' or (_s_.dtype.kind == 'f' and isinstance({{ src }}, _np_.ndarray))):";
-           NAct KRaw "_lo_, _hi_ = _s_.min(), _s_.max()";
-           NAct KRaw "if _s_.dtype.kind != 'O':";
-           NAct KRaw "_lo_, _hi_ = _lo_.item(), _hi_.item()";
-           NAct KRaw "if not ({{ t.element_type.inclusive_value_range.min }} <= _lo_ and _hi_ <= {{ t.element_type.inclusive_value_range.max }}):";
-           NAct KRaw "raise ValueError(f'{{ f.name }}: array element is not in [{{ t.element_type.inclusive_value_range.min }}, {{ t.element_type.inclusive_value_range.max }}]')"])]
+          [NAct KRaw "if not _int_elements_ok_({{ src }}, {{ t.element_type.inclusive_value_range.min }}, {{ t.element_type.inclusive_value_range.max }}):";
+           NAct KRaw "raise ValueError(f'{{ f.name }}: array element is not an integer in [{{ t.element_type.inclusive_value_range.min }}, {{ t.element_type.inclusive_value_range.max }}]')"])]
         [];
+       NAct KRaw "try:";
        NAct KRaw "_a_ = _np_.array({{ src }}, {{ t.element_type|numpy_scalar_type }}).flatten()";
+       NAct KRaw "except OverflowError as _ex_:";
+       NAct KRaw "raise ValueError(f'{{ f.name }}: {_ex_}') from None";
        NAct KRaw "if not _a_.size {{ cmp }} {{ t.capacity }}:";
        NAct KRaw "raise ValueError(f'{{ f.name }}: invalid array length: not {_a_.size} {{ cmp }} {{ t.capacity }}')";
        NIf [
@@ -2825,7 +2829,10 @@ Definition walker_py_decl_base : list tnode :=
             [NAct KRaw "self._{{ f|id }} = bool(x)"]);
            ((CAtom "f.data_type is IntegerType"),
             [NAct KRaw """""""Raises ValueError if the value is outside of the permitted range, regardless of the cast mode.""""""";
+             NAct KRaw "try:";
              NAct KRaw "x = int(x)";
+             NAct KRaw "except OverflowError:";
+             NAct KRaw "raise ValueError(f'{{ f|id }}: value {x} is not in [{{ f.data_type.inclusive_value_range.min }}, {{ f.data_type.inclusive_value_range.max }}]') from None";
              NAct KRaw "if {{ f.data_type.inclusive_value_range.min }} <= x <= {{ f.data_type.inclusive_value_range.max }}:";
              NAct KRaw "self._{{ f|id }} = x";
              NAct KRaw "else:";
@@ -2834,13 +2841,19 @@ Definition walker_py_decl_base : list tnode :=
             [NAct KRaw """""""Raises ValueError if the value is finite and outside of the permitted range, regardless of the cast mode.""""""";
              NIf [
                ((CAtom "f.data_type.bit_length < 64"),
-                [NAct KRaw "x = float(x)";
+                [NAct KRaw "try:";
+                 NAct KRaw "x = float(x)";
+                 NAct KRaw "except OverflowError:";
+                 NAct KRaw "raise ValueError(f'{{ f|id }}: value {x} is not in [{{ f.data_type.inclusive_value_range.min }}, {{ f.data_type.inclusive_value_range.max }}]') from None";
                  NAct KRaw "in_range = {{ f.data_type.inclusive_value_range.min }}.0 <= x <= {{ f.data_type.inclusive_value_range.max }}.0";
                  NAct KRaw "if in_range or not _np_.isfinite(x):";
                  NAct KRaw "self._{{ f|id }} = x";
                  NAct KRaw "else:";
                  NAct KRaw "raise ValueError(f'{{ f|id }}: value {x} is not in [{{ f.data_type.inclusive_value_range.min }}, {{ f.data_type.inclusive_value_range.max }}]')"])]
-              [NAct KRaw "self._{{ f|id }} = float(x)"]]);
+              [NAct KRaw "try:";
+               NAct KRaw "self._{{ f|id }} = float(x)";
+               NAct KRaw "except OverflowError:";
+               NAct KRaw "raise ValueError(f'{{ f|id }}: value {x} is not in [{{ f.data_type.inclusive_value_range.min }}, {{ f.data_type.inclusive_value_range.max }}]') from None"]]);
            ((CAtom "f.data_type is ArrayType"),
             [NAct KRaw "{{ assign_array(f, 'x') | indent(4) }}"]);
            ((CAtom "f.data_type is CompositeType"),
@@ -2885,6 +2898,26 @@ Definition walker_py_decl_base : list tnode :=
        NAct KRaw ")";
        NAct KRaw "assert isinstance(_MODEL_, _pydsdl_.{{ meta_type }})"])]
     [];
+   NAct KRaw "def _int_elements_ok_(src: object, lo: int, hi: int) -> bool:";
+   NAct KRaw """""""";
+   NAct KRaw "Whether every numeric element of the value about to be converted into an array of integers is an integer within [lo, hi].";
+   NAct KRaw "NumPy range-checks Python ints only: NumPy scalars, nested arrays and arrays of another type are cast like in C (they wrap around),";
+   NAct KRaw "so they are looked at here, as exact Python numbers. Elements that are not numbers (text, None) are left to the conversion.";
+   NAct KRaw """""""";
+   NAct KRaw "s = _np_.asarray(src)";
+   NAct KRaw "if s.size == 0 or s.dtype.kind == 'b':";
+   NAct KRaw "return True";
+   NAct KRaw "if s.dtype.kind in 'iu':";
+   NAct KRaw "return bool(lo <= s.min().item() and s.max().item() <= hi)";
+   NAct KRaw "if isinstance(src, _np_.ndarray) and s.dtype.kind == 'f':";
+   NAct KRaw "return bool(_np_.all(s == _np_.trunc(s))) and bool(lo <= s.min().item() and s.max().item() <= hi)";
+   NAct KRaw "if isinstance(src, _np_.ndarray) and s.dtype.kind not in 'OUS':";
+   NAct KRaw "return False";
+   NAct KRaw "for e in _np_.asarray(src, dtype=object).flat:";
+   NAct KRaw "e = e.item() if isinstance(e, (_np_.generic, _np_.ndarray)) and _np_.ndim(e) == 0 else e";
+   NAct KRaw "if isinstance(e, complex) or (isinstance(e, (int, float)) and not (lo <= e <= hi and e == int(e))):";
+   NAct KRaw "return False";
+   NAct KRaw "return True";
    NAct KRaw "def _restore_constant_(encoded_string: str) -> object:";
    NAct KRaw "import pickle, gzip, base64";
    NAct KRaw "return pickle.loads(gzip.decompress(base64.b85decode(encoded_string)))";
